@@ -127,7 +127,15 @@ def run(model: Model, rep, tier: str) -> None:
             # (loop variables captured by a closure, buffers rebound later)
             # differs between the two.
             r = Run(model, "BilinearForm", "_assemble", sizes, nthreads=nth,
-                    schedule=sched)
+                    schedule=sched, worker_raise_ok=True)
+            if r.result is None:
+                what = [e[2] for e in r.events if e[0] == "thread-raised"]
+                rep.fail("C16-O4", F, "BilinearForm._assemble",
+                         f"raises[{sizes['u']}x{sizes['v']},nthreads={nth}]",
+                         f"with nthreads={nth} a worker raises "
+                         f"({what[0][:80] if what else r.raised}) for sizes "
+                         f"the serial assembly handles", line)
+                continue
             blocks, _ = r.blocks(r.result[1])
             cons = f"[{tag},nthreads={nth}]" if sched == "eager" else \
                 f"[{tag},nthreads={nth},workers run at join]"
@@ -276,7 +284,7 @@ def run(model: Model, rep, tier: str) -> None:
 _B = F
 _THR = """            threads = [
                 Thread(
-                    target=self._threaded_kernel,
+                    target=worker,
                     args=(data, ix, ubasis.basis, vbasis.basis, wdict, dx)
                 ) for ix in np.array_split(indices, self.nthreads, axis=0)
             ]
@@ -305,7 +313,7 @@ MUTANTS = [
     ("worker share captured by a late-binding closure",
      (_B, _THR, """            threads = []
             for ix in np.array_split(indices, self.nthreads, axis=0):
-                threads.append(Thread(target=lambda: self._threaded_kernel(
+                threads.append(Thread(target=lambda: worker(
                     data, ix, ubasis.basis, vbasis.basis, wdict, dx)))
 """), "C16-O1"),
     ("worker writes the transposed slot",
@@ -348,10 +356,12 @@ MUTANTS = [
      (_B, "                if self.nthreads <= 0:\n", "                if "
       "self.nthreads <= 1:\n"), "C16-O5"),
     ("threads started but flatten happens before the joins",
-     (_B, "            for t in threads:\n                t.join()\n\n"
+     (_B, "            for t in threads:\n                t.join()\n"
+      "            if len(errors) > 0:\n                raise errors[0]\n\n"
       "        data = data.flatten('C')\n",
       "        data = data.flatten('C')\n        if self.nthreads > 0:\n"
-      "            for t in threads:\n                t.join()\n"),
+      "            for t in threads:\n                t.join()\n"
+      "            if len(errors) > 0:\n                raise errors[0]\n"),
      "C16-O6"),
 ]
 TWINS = [
@@ -369,7 +379,7 @@ TWINS = [
      (_B, _THR, """            threads = []
             for ix in np.array_split(indices, self.nthreads, axis=0):
                 threads.append(Thread(
-                    target=lambda ix=ix: self._threaded_kernel(
+                    target=lambda ix=ix: worker(
                         data, ix, ubasis.basis, vbasis.basis, wdict, dx)))
 """), None),
     ("start and join in one comprehension each",
